@@ -402,6 +402,7 @@ class Stats:
         self.probes = {}
         self.toolchains = {}
         self.stdout_modes = {}
+        self.encodings = {}
         self.clocks = {}
         self.hashseeds = {}
         self.outcomes = {}
@@ -542,6 +543,7 @@ def run_campaign(tier, seed, jobs, only_runs=None):
                 if plan["toolchain"].get("b"):
                     stats.bump(stats.toolchains, _oracle.toolchain_id(plan["toolchain"]["b"]))
                 stats.bump(stats.stdout_modes, plan["env"]["stdout_mode"])
+                stats.bump(stats.encodings, plan["env"].get("encoding") or "utf-8")
                 stats.bump(stats.clocks, plan["env"]["clock"][0][:4])
                 stats.bump(stats.hashseeds, str(plan["hashseed"]))
                 stats.bump(stats.git_outcomes, plan["env"]["git"].split(":")[0])
@@ -951,7 +953,7 @@ def write_evidence(tier, seed, t0, ctx, stats, cov, det, exitm, reported, known_
             "faulty_outcomes": dict(sorted(stats.outcomes.items())),
             "escalated_to_build_oracle": stats.escalated,
             "probes": dict(sorted(stats.probes.items())),
-            "environment_knobs": {"stdout_mode": stats.stdout_modes, "clock_year": stats.clocks, "hashseed": stats.hashseeds, "git_outcome": stats.git_outcomes},
+            "environment_knobs": {"stdout_mode": stats.stdout_modes, "locale_encoding": stats.encodings, "clock_year": stats.clocks, "hashseed": stats.hashseeds, "git_outcome": stats.git_outcomes},
             "toolchain_histogram": dict(sorted(stats.toolchains.items())),
             "order_coverage": c,
             "max_steps": stats.max_steps,
